@@ -17,6 +17,8 @@ from __future__ import annotations
 import json
 from typing import Any
 
+import linecache
+
 from checks import c03_linear as c03
 from checks import common
 from simkit import deploy, gen, net, ops, sched, seams
@@ -86,6 +88,11 @@ def _add_sql_faults(plan: dict, rng: Any) -> None:
     """Some SELECTs of a caching client fail once (I/O error; the RDB layer has a fallback
     path for a failing incremental trial query): the client's view must stay right."""
     cached = [n for n, c in plan["clients"].items() if c["kind"] == "cached"]
+    if cached and rng.random() < 0.25:
+        # a KeyboardInterrupt (Ctrl-C, notebook interrupt, alarm handler) lands at some source
+        # line of _CachedStorage while the client is *reading*; the client lives on
+        plan["line_interrupts"] = [{"client": rng.choice(cached), "nth": rng.randint(0, 400)} for _ in range(rng.randint(1, 3))]
+        return
     if cached and rng.random() < 0.4:
         plan["sql_faults"] = [{"client": rng.choice(cached), "nth": rng.randint(0, 40)} for _ in range(rng.randint(1, 4))]
 
@@ -340,7 +347,7 @@ def _gen_threads(seed: int, run: int, tier: str, rng: Any) -> dict:
 def shrink_paths(plan: dict) -> list[tuple]:
     if plan["cfg"].get("mode") == "threads":
         return c03.shrink_paths(plan)
-    return [("clients", n, "ops") for n in plan["clients"]] + [("faults",), ("sched", "table")] + ([("sql_faults",)] if "sql_faults" in plan else [])
+    return [("clients", n, "ops") for n in plan["clients"]] + [("faults",), ("sched", "table")] + ([("sql_faults",)] if "sql_faults" in plan else []) + ([("line_interrupts",)] if "line_interrupts" in plan else [])
 
 
 def signature_class(sig: str) -> str:
@@ -365,7 +372,9 @@ def run_plan(plan: dict) -> dict:
             return c03._run(plan, sim, ch, dep, cid=ID)
         finally:
             dep.close()
-    sim = sched.Sim(ch, trace_suffixes=(), max_steps=300000, uuid_salt=str(plan.get("run", 0)))
+    # line events only where an asynchronous interrupt is to be placed (no pre-emption there)
+    trace = ("optuna/storages/_cached_storage.py",) if plan.get("line_interrupts") else ()
+    sim = sched.Sim(ch, trace_suffixes=trace, max_steps=300000, uuid_salt=str(plan.get("run", 0)))
     dep = deploy.Deployment(sim, "rdb", cfg)
     try:
         return _run_clients(plan, sim, ch, dep)
@@ -390,7 +399,7 @@ class _Inner:
 def _read_failed_types() -> tuple:
     from optuna.exceptions import StorageInternalError
 
-    return (net.SimRpcError, StorageInternalError)
+    return (net.SimRpcError, StorageInternalError, KeyboardInterrupt)
 
 
 READ_FAILED: tuple = ()
@@ -495,6 +504,29 @@ def _run_clients(plan: dict, sim: sched.Sim, ch: sched.Chooser, dep: deploy.Depl
             return False
 
         dep.db.fault = sql_fault
+    line_interrupts = [dict(f) for f in plan.get("line_interrupts", [])]
+    reading: dict[str, int] = {}
+    if line_interrupts:
+        nline: dict[str, int] = {}
+
+        def line_fault(task: Any) -> Any:
+            if not reading.get(task.name) or quiet[0]:
+                return None
+            code_, line_ = sim.cur_line or (None, 0)
+            if code_ is not None and linecache.getline(code_.co_filename, line_).lstrip().startswith("with "):
+                # a `with` line is visited again on the way out, outside the protected range:
+                # CPython never runs a signal handler there (no eval-breaker check between the
+                # end of the body and the __exit__ call) - not a place a real interrupt lands
+                return None
+            nline[task.name] = nline.get(task.name, 0) + 1
+            for f in line_interrupts:
+                if not f.get("fired") and f["client"] == task.name and f["nth"] == nline[task.name] - 1:
+                    f["fired"] = True
+                    sim.count("interrupt_at_line_of_cached_storage")
+                    return KeyboardInterrupt()
+            return None
+
+        sim.line_fault = line_fault
     verdict: list[tuple[str, str]] = []
     observed_gone: set = set()  # (client, study id) for which the client itself got KeyError
     own_delete_failed: set = set()  # (client, study id): its own delete_study raised KeyError
@@ -667,11 +699,19 @@ def _run_clients(plan: dict, sim: sched.Sim, ch: sched.Chooser, dep: deploy.Depl
                         trace.append("%s(%s) repickle" % (name, kinds[name]))
                         return
                     if op["op"] == "read_check":
-                        read_check(name, st, op["study"], op.get("filters"), op.get("full", True))
+                        reading[name] = 1
+                        try:
+                            read_check(name, st, op["study"], op.get("filters"), op.get("full", True))
+                        finally:
+                            reading[name] = 0
                         sim.note("read", name, op["study"])
                         return
                     if op["op"] == "read_trial":
-                        read_trial(name, st, op)
+                        reading[name] = 1
+                        try:
+                            read_trial(name, st, op)
+                        finally:
+                            reading[name] = 0
                         sim.note("read_trial", name, op["trial"])
                         return
                     if op["op"] == "heartbeat":
